@@ -582,7 +582,7 @@ func runVariant(c Check, v Variant, tier string, seed int64, scratch, replayDir 
 		copyFile(o.logPath, filepath.Join(replayDir, fmt.Sprintf("watchdog-%s-s%d.log", v.Name, seed)))
 	}
 	// echo harness-level violation lines and the tail of the log for the operator
-	if tail := tailFile(o.logPath, 30); tail != "" && (o.exit != 0 || os.Getenv("VERIF_VERBOSE") != "") {
+	if tail := tailFile(o.logPath, 15); tail != "" && (o.exit != 0 || os.Getenv("VERIF_VERBOSE") != "") {
 		fmt.Printf("--- %s/%s log tail ---\n%s\n", c.ID, v.Name, tail)
 	}
 	if v.Race {
@@ -861,6 +861,11 @@ func tailFile(p string, n int) string {
 	lines := strings.Split(strings.TrimRight(string(b), "\n"), "\n")
 	if len(lines) > n {
 		lines = lines[len(lines)-n:]
+	}
+	for i, l := range lines {
+		if len(l) > 400 {
+			lines[i] = l[:400] + "…"
+		}
 	}
 	return strings.Join(lines, "\n")
 }
